@@ -7,6 +7,7 @@ import (
 	"net"
 	"sort"
 	"sync"
+	"syscall"
 	"time"
 
 	dtlsServer "github.com/plgd-dev/go-coap/v3/dtls/server"
@@ -79,6 +80,7 @@ func (o c10UDPSeam) TCPServerApply(cfg *tcpServer.Config) {
 type simListener struct {
 	mu     sync.Mutex
 	queue  []net.Conn
+	fail   []error // transient accept errors (descriptor table full, no buffers), one per Accept call
 	wake   chan struct{}
 	closed chan struct{}
 	once   sync.Once
@@ -91,6 +93,12 @@ func newSimListener() *simListener {
 func (l *simListener) AcceptWithContext(ctx context.Context) (net.Conn, error) {
 	for {
 		l.mu.Lock()
+		if len(l.fail) > 0 {
+			err := l.fail[0]
+			l.fail = l.fail[1:]
+			l.mu.Unlock()
+			return nil, err
+		}
 		if len(l.queue) > 0 {
 			c := l.queue[0]
 			l.queue = l.queue[1:]
@@ -108,6 +116,12 @@ func (l *simListener) AcceptWithContext(ctx context.Context) (net.Conn, error) {
 	}
 }
 func (l *simListener) Close() error { l.once.Do(func() { close(l.closed) }); return nil }
+func (l *simListener) FailNext(err error) {
+	l.mu.Lock()
+	l.fail = append(l.fail, err)
+	l.mu.Unlock()
+	poke(l.wake)
+}
 func (l *simListener) Connect(c net.Conn) {
 	l.mu.Lock()
 	l.queue = append(l.queue, c)
@@ -594,6 +608,15 @@ func c10Twin(e *Env, kind string) {
 			a := advs[t.Choose(nAdv)]
 			advEvents++
 			advSinceGood = true
+			if kind != "udp" && t.Chance(1, 3) {
+				// a crowd of connect-and-stall peers has exhausted the descriptor table: accept fails once
+				errno := []syscall.Errno{syscall.EMFILE, syscall.ENFILE, syscall.ENOBUFS, syscall.ECONNABORTED}[t.Choose(4)]
+				e.Fault("listener.transientAcceptError")
+				e.Logf("accept fails once with %v", errno)
+				w1.lis.FailNext(&net.OpError{Op: "accept", Net: "tcp", Err: errno})
+				e.Wait()
+				break
+			}
 			switch kind {
 			case "tcp":
 				e.Fault("adv.reset")
@@ -787,7 +810,52 @@ func c10Discovery(e *Env) {
 			answers = append(answers, answer{from: r, di: ri % nDisc, forged: true})
 		}
 	}
+	// an application error that must stay harmless: a second discovery re-uses the token of a running one
+	dupAt, dupOf := -1, 0
+	if t.Chance(1, 3) {
+		dupAt, dupOf = t.Choose(len(answers)+1), t.Choose(nDisc)
+	}
+	dupRefused, dupDelivered := false, 0
+	issueDup := func() {
+		e.Fault("discovery.duplicateToken")
+		e.Logf("application issues a second discovery with the token of discovery %d", dupOf)
+		ctx, cancel := context.WithTimeout(context.Background(), 3*time.Second)
+		e.OnCleanup(cancel)
+		returned := false
+		var err error
+		go func() {
+			req := pool.NewMessage(ctx)
+			_ = req.SetupGet("/oic/res", message.Token(discs[dupOf].token))
+			req.SetMessageID(int32(600))
+			req.SetType(message.NonConfirmable)
+			er := w.udpSrv.DiscoveryRequest(req, "224.0.1.187:5683", func(cc *udpClient.Conn, resp *pool.Message) {
+				w.mu.Lock()
+				dupDelivered++
+				w.mu.Unlock()
+			}, coapNet.WithAnyMulticastInterface())
+			w.mu.Lock()
+			returned, err = true, er
+			w.mu.Unlock()
+		}()
+		e.Wait()
+		w.mu.Lock()
+		dupRefused = returned && err != nil
+		w.mu.Unlock()
+		if dupRefused {
+			e.Probe("discovery.duplicateTokenRefused")
+		}
+		for _, p := range w.dn.PendingList() {
+			w.dn.Take(p)
+			w.dn.Deliver(p)
+		}
+		e.Wait()
+	}
+	delivered := 0
 	for len(answers) > 0 {
+		if delivered == dupAt {
+			issueDup()
+		}
+		delivered++
 		k := t.Choose(len(answers))
 		a := answers[k]
 		answers = append(answers[:k], answers[k+1:]...)
@@ -807,9 +875,18 @@ func c10Discovery(e *Env) {
 		e.Logf("responder %s answers discovery %d (forged=%v)", a.from, a.di, a.forged)
 		e.NonTrivial()
 	}
+	if delivered == dupAt {
+		issueDup()
+	}
 	e.Sleep(25 * time.Second)
 	w.mu.Lock()
+	if dupRefused && dupDelivered > 0 {
+		e.Violate("C10.R5", "discovery-response-to-refused-receiver", "the receiver of a discovery that was refused (token in use) got %d responses", dupDelivered)
+	}
 	for di, d := range discs {
+		if dupAt >= 0 && di == dupOf && !dupRefused {
+			continue // the library accepted a second receiver for the token: who is "the registered receiver" is open
+		}
 		if !d.done {
 			e.Violate("C10.R5", "discovery-did-not-return", "discovery %d has not returned after its deadline", di)
 		}
